@@ -13,10 +13,10 @@ Print Assumptions C14_handler_iff.
 (* the whole property (Spec/MiddlewareSpec.spec_ok): not-found / bad-request answered by the
    error callback alone; strict + invalid response: only the error callback's bytes reach the
    client; strict + valid: exactly the handler's status and body; non-strict: pass-through.
-   Guard: in strict mode the handler commits to a status or writes a body. *)
+   No guard: since the fix: commit for finding F-C14-1 (strict mode, handler writes nothing)
+   the statement holds for every call sequence, including the empty one. *)
 Theorem C14_middleware_meets_spec :
   forall route_ok req_ok resp_ok ef strict hs,
-    (strict = true -> route_ok && req_ok = true -> g_wrote hs = true) ->
     spec_ok route_ok req_ok resp_ok ef strict hs (run route_ok req_ok resp_ok ef strict hs) = true.
 Proof. exact run_spec. Qed.
 Print Assumptions C14_middleware_meets_spec.
@@ -28,19 +28,16 @@ Theorem C14_nonstrict_passthrough :
 Proof. exact run_spec_nonstrict. Qed.
 Print Assumptions C14_nonstrict_passthrough.
 
-(* without the guard the statement is false of the faithful model (finding F-C14-1) *)
-Theorem C14_unguarded_refuted :
-  exists hs, spec_ok true true (fun _ _ => true) default_ef true hs
-               (run true true (fun _ _ => true) default_ef true hs) = false.
-Proof. exact run_spec_strict_refuted. Qed.
-Print Assumptions C14_unguarded_refuted.
-
-(* non-vacuity: the guard is satisfiable by non-trivial call sequences, and the spec is not
-   constantly true (it rejects an outcome that leaks a handler byte) *)
+(* non-vacuity: the spec is not constantly true (it rejects an outcome that leaks a handler
+   byte, and one that panics where the handler wrote nothing) *)
 Example C14_guard_sat :
   g_wrote [HSetHeader "a" "b"; HFlush; HWrite "x"; HWriteHeader 500; HWriteHeader 201; HWrite "y"] = true.
 Proof. reflexivity. Qed.
 Example C14_spec_rejects_leak :
   spec_ok true true (fun _ _ => false) default_ef true [HWriteHeader 200; HWrite "secret"]
     (mkOut (mkClient true 200 "secret" false) true [] [] 200 "secret") = false.
+Proof. vm_compute. reflexivity. Qed.
+Example C14_spec_rejects_panic_on_silent_handler :
+  spec_ok true true (fun _ _ => true) default_ef true []
+    (mkOut (mkClient false 200 "" true) true [] [] 0 "") = false.
 Proof. vm_compute. reflexivity. Qed.
